@@ -78,6 +78,8 @@ struct TokenParser {
     parse_steps: usize,
     max_parse_steps: usize,
     budget_exhausted: bool,
+    depth: usize,
+    deepest: usize,
 }
 
 impl TokenParser {
@@ -95,6 +97,47 @@ impl TokenParser {
     const PARSE_STEP_FACTOR: usize = 2_048;
     const PARSE_STEP_FLOOR: usize = 50_000;
 
+    // Depth budget. The parser, the planner, the evaluator and `Drop` all recurse over the
+    // AST / plan, so an input nested (or chained: `1 + 1 + 1 + ...` is a left-deep tree) deeply
+    // enough overflows the stack and kills the process. `depth` is the cost of the path from
+    // the root to the production being parsed, `deepest` the deepest node below the innermost
+    // nested production; both stay <= MAX_DEPTH_BUDGET. Unoptimised builds use about ten
+    // times more stack per level (measured on 2 MiB threads).
+    const MAX_DEPTH_BUDGET: usize = if cfg!(debug_assertions) { 160 } else { 960 };
+    const EXPRESSION_NESTING_COST: usize = 3;
+    const QUERY_NESTING_COST: usize = 6;
+
+    fn nesting_error() -> Error {
+        Error::Other("syntax error: NestingDepthLimitExceeded".to_string())
+    }
+
+    /// Runs a recursive production `cost` levels further down.
+    fn nested<T>(
+        &mut self,
+        cost: usize,
+        production: impl FnOnce(&mut Self) -> Result<T, Error>,
+    ) -> Result<T, Error> {
+        if self.depth + cost > Self::MAX_DEPTH_BUDGET {
+            return Err(Self::nesting_error());
+        }
+        self.depth += cost;
+        let outer_deepest = std::mem::replace(&mut self.deepest, self.depth);
+        let result = production(self);
+        self.depth -= cost;
+        self.deepest = self.deepest.max(outer_deepest);
+        result
+    }
+
+    /// What has been parsed so far in the innermost production becomes the child of
+    /// `levels` new nodes (an operator chain, a postfix chain, the next clause or hop).
+    fn push_down(&mut self, levels: usize) -> Result<(), Error> {
+        if self.deepest + levels > Self::MAX_DEPTH_BUDGET {
+            return Err(Self::nesting_error());
+        }
+        self.deepest += levels;
+        Ok(())
+    }
+
     fn new(tokens: Vec<Token>) -> Self {
         let max_parse_steps = Self::max_parse_steps_for(tokens.len());
         Self {
@@ -104,6 +147,8 @@ impl TokenParser {
             parse_steps: 0,
             max_parse_steps,
             budget_exhausted: false,
+            depth: 0,
+            deepest: 0,
         }
     }
 
@@ -133,6 +178,10 @@ impl TokenParser {
     }
 
     fn parse_query(&mut self) -> Result<Query, Error> {
+        self.nested(Self::QUERY_NESTING_COST, Self::parse_query_inner)
+    }
+
+    fn parse_query_inner(&mut self) -> Result<Query, Error> {
         #[cfg(nervusdb_verif)]
         let _verif_depth = verif_depth::Guard::enter();
         self.ensure_budget()?;
@@ -151,6 +200,7 @@ impl TokenParser {
                 union_mode = Some(all);
             }
             let right_clauses = self.parse_single_query_clauses()?;
+            self.push_down(1)?;
             clauses.push(Clause::Union(UnionClause {
                 all,
                 query: Query {
@@ -172,6 +222,7 @@ impl TokenParser {
         {
             if let Some(clause) = self.parse_clause()? {
                 clauses.push(clause);
+                self.push_down(1)?;
             } else {
                 break;
             }
@@ -313,6 +364,7 @@ impl TokenParser {
         let mut patterns = Vec::new();
         patterns.push(self.parse_pattern()?);
         while self.match_token(&TokenType::Comma) {
+            self.push_down(1)?;
             patterns.push(self.parse_pattern()?);
         }
         Ok(MatchClause {
@@ -325,6 +377,7 @@ impl TokenParser {
         let mut patterns = Vec::new();
         patterns.push(self.parse_pattern()?);
         while self.match_token(&TokenType::Comma) {
+            self.push_down(1)?;
             patterns.push(self.parse_pattern()?);
         }
         Ok(MatchClause {
@@ -337,6 +390,7 @@ impl TokenParser {
         let mut patterns = Vec::new();
         patterns.push(self.parse_pattern()?);
         while self.match_token(&TokenType::Comma) {
+            self.push_down(1)?;
             patterns.push(self.parse_pattern()?);
         }
         Ok(CreateClause { patterns })
@@ -616,6 +670,10 @@ impl TokenParser {
     }
 
     fn parse_pattern(&mut self) -> Result<Pattern, Error> {
+        self.nested(Self::EXPRESSION_NESTING_COST, Self::parse_pattern_inner)
+    }
+
+    fn parse_pattern_inner(&mut self) -> Result<Pattern, Error> {
         #[cfg(nervusdb_verif)]
         let _verif_depth = verif_depth::Guard::enter();
         self.ensure_budget()?;
@@ -654,6 +712,7 @@ impl TokenParser {
         elements.push(PathElement::Node(self.parse_node_pattern()?));
 
         while self.check_relationship_start() {
+            self.push_down(1)?;
             elements.push(PathElement::Relationship(
                 self.parse_relationship_pattern()?,
             ));
@@ -884,6 +943,10 @@ impl TokenParser {
     }
 
     fn parse_foreach(&mut self) -> Result<ForeachClause, Error> {
+        self.nested(Self::QUERY_NESTING_COST, Self::parse_foreach_inner)
+    }
+
+    fn parse_foreach_inner(&mut self) -> Result<ForeachClause, Error> {
         #[cfg(nervusdb_verif)]
         let _verif_depth = verif_depth::Guard::enter();
         self.consume(&TokenType::LeftParen, "Expected '(' after FOREACH")?;
@@ -903,6 +966,7 @@ impl TokenParser {
                     | Clause::Remove(_)
                     | Clause::Foreach(_) => {
                         updates.push(clause);
+                        self.push_down(1)?;
                     }
                     _ => {
                         return Err(Error::Other(format!(
@@ -1048,6 +1112,12 @@ impl TokenParser {
     }
 
     fn parse_expression_bp(&mut self, min_bp: u8) -> Result<Expression, Error> {
+        self.nested(Self::EXPRESSION_NESTING_COST, |p| {
+            p.parse_expression_bp_inner(min_bp)
+        })
+    }
+
+    fn parse_expression_bp_inner(&mut self, min_bp: u8) -> Result<Expression, Error> {
         #[cfg(nervusdb_verif)]
         let _verif_depth = verif_depth::Guard::enter();
         self.ensure_budget()?;
@@ -1065,6 +1135,7 @@ impl TokenParser {
                 self.consume_null_keyword("Expected NULL after IS")?;
                 BinaryOperator::IsNull
             };
+            self.push_down(1)?;
             lhs = Self::binary_expr(lhs, op, Expression::Literal(Literal::Null));
         }
 
@@ -1083,6 +1154,7 @@ impl TokenParser {
             }
 
             let rhs = self.parse_expression_bp(rbp)?;
+            self.push_down(1)?;
             if Self::is_chainable_comparison_operator(&op) {
                 // Comparison chains are equivalent to pairwise comparisons joined by AND:
                 // a < b <= c     => (a < b) AND (b <= c)
@@ -1101,6 +1173,7 @@ impl TokenParser {
                         self.consume(&TokenType::With, "Expected WITH after STARTS/ENDS")?;
                     }
                     let next_rhs = self.parse_expression_bp(next_rbp)?;
+                    self.push_down(2)?;
                     let chained_cmp = Self::binary_expr(chain_left, next_op, next_rhs.clone());
                     combined = Self::binary_expr(combined, BinaryOperator::And, chained_cmp);
                     chain_left = next_rhs;
@@ -1378,6 +1451,7 @@ impl TokenParser {
         // Postfix operators: property access, indexing/slicing, label predicates.
         loop {
             if self.match_token(&TokenType::Dot) {
+                self.push_down(1)?;
                 let property = self.parse_property_key()?;
                 expr = match expr {
                     Expression::Variable(variable) => {
@@ -1392,6 +1466,7 @@ impl TokenParser {
             }
 
             if self.match_token(&TokenType::LeftBracket) {
+                self.push_down(1)?;
                 // Parse index/slice: expr[idx] / expr[start..end]
                 let start_expr =
                     if self.check(&TokenType::RangeDots) || self.check(&TokenType::RightBracket) {
@@ -1435,6 +1510,7 @@ impl TokenParser {
 
             if self.match_token(&TokenType::Colon) {
                 let labels = self.parse_expression_label_chain()?;
+                self.push_down(labels.len())?;
                 expr = self.build_expression_label_predicate(expr, labels);
                 continue;
             }
@@ -1506,11 +1582,11 @@ impl TokenParser {
             return None;
         }
 
-        let checkpoint = self.position;
+        let checkpoint = (self.position, self.deepest);
         match self.parse_pattern() {
             Ok(pattern) if pattern.elements.len() >= 3 => Some(pattern),
             _ => {
-                self.position = checkpoint;
+                (self.position, self.deepest) = checkpoint;
                 None
             }
         }
@@ -1810,12 +1886,12 @@ impl TokenParser {
         }
 
         if self.maybe_pattern_comprehension_start() {
-            let checkpoint = self.position;
+            let checkpoint = (self.position, self.deepest);
             match self.parse_pattern_comprehension() {
                 Ok(expr) => return Ok(expr),
                 Err(_) => {
                     // Not a pattern comprehension: rewind and parse as a list literal.
-                    self.position = checkpoint;
+                    (self.position, self.deepest) = checkpoint;
                 }
             }
         }
@@ -2022,6 +2098,38 @@ mod tests {
             ret.items[2].expression,
             Expression::Literal(Literal::Null)
         ));
+    }
+
+    #[test]
+    fn nesting_and_chain_depth_are_limited() {
+        let deep = |open: &str, close: &str, n: usize| {
+            format!("RETURN {}1{} AS x", open.repeat(n), close.repeat(n))
+        };
+        // well above anything in the test-suite / TCK (40 nested lists)
+        assert!(Parser::parse(&deep("[", "]", 45)).is_ok());
+        assert!(Parser::parse(&format!("RETURN 1{} AS x", " + 1".repeat(100))).is_ok());
+        for query in [
+            deep("(", ")", 5000),
+            deep("[", "]", 5000),
+            deep("{a: ", "}", 5000),
+            deep("abs(", ")", 5000),
+            deep("- ", "", 5000),
+            deep("CASE WHEN true THEN ", " END", 5000),
+            format!("RETURN 1{} AS x", " + 1".repeat(100_000)),
+            format!("RETURN 1{} AS x", " < 2".repeat(100_000)),
+            format!("RETURN 1{} AS x", " IS NULL".repeat(100_000)),
+            format!("WITH {{a: 1}} AS m RETURN m{} AS x", ".a".repeat(100_000)),
+            format!("MATCH (n) RETURN n{} AS x", ":A".repeat(100_000)),
+            format!("{}RETURN 1 AS x{}", "CALL { ".repeat(5000), " } RETURN x".repeat(5000)),
+            format!("{}CREATE (:F){}", "FOREACH (i IN [1] | ".repeat(5000), ")".repeat(5000)),
+            format!("RETURN 1 AS x{}", " UNION ALL RETURN 1 AS x".repeat(20_000)),
+            format!("{}RETURN 1 AS x", "UNWIND [1] AS u ".repeat(20_000)),
+            format!("MATCH (n){} RETURN n", "-->()".repeat(20_000)),
+            format!("MATCH (n){} RETURN n", ", ()".repeat(20_000)),
+        ] {
+            let err = Parser::parse(&query).expect_err("deep input must be rejected");
+            assert_eq!(err.to_string(), "syntax error: NestingDepthLimitExceeded");
+        }
     }
 
     #[test]
